@@ -994,7 +994,7 @@ type observed struct {
 	OpsMatch       bool    `json:"ops_match_tree_and_manifest"` // the property's second clause, evaluated by the harness itself
 	StsMatch       bool    `json:"sts_match_tree_and_manifest"`
 	DupTreeNodes   [2]bool `json:"tree_has_duplicate_nodes"` // (ops, sts)
-	EmptyWithRoot  [2]bool `json:"empty_with_root"` // (ops, sts): nothing stored, empty tree, yet the manifest names a root
+	EmptyWithRoot  [2]bool `json:"empty_with_root"`          // (ops, sts): nothing stored, empty tree, yet the manifest names a root
 	OpsAllValid    bool    `json:"ops_all_valid"`
 	StsAllValid    bool    `json:"sts_all_valid"`
 	errs           []string
